@@ -92,6 +92,7 @@ func (verify *VerifyServerController) handlePairVerifyStart(in util.Container) (
 	clientPublicKey := in.GetBytes(TagPublicKey)
 	log.Debug.Println("->     A:", hex.EncodeToString(clientPublicKey))
 	if len(clientPublicKey) != 32 {
+		verify.reset()
 		return nil, errInvalidClientKeyLength
 	}
 
